@@ -42,11 +42,18 @@ class CallMixin:
     def list_parts(self, lst, st):
         et = self.elem_type(lst)
         kl, ke = self.eng.k_len(), self.eng.k_elem(et)
-        return et, kl, ke, z3.Select(st.h(kl), lst.z), z3.Select(st.h(ke), lst.z)
+        return et, kl, ke, self.rd(st, kl, lst.z), self.rd(st, ke, lst.z)
 
     def list_store(self, lst, st, n, arr, kl, ke):
         st.seth(kl, z3.Store(st.h(kl), lst.z, n))
         st.seth(ke, z3.Store(st.h(ke), lst.z, arr))
+
+    @staticmethod
+    def norm_idx_code(iz, n):
+        iz = z3.simplify(iz)
+        if z3.is_int_value(iz):
+            return iz + n if iz.as_long() < 0 else iz
+        return z3.If(iz < 0, iz + n, iz)
 
     def list_append(self, lst, v, st):
         et, kl, ke, n, arr = self.list_parts(lst, st)
@@ -54,7 +61,7 @@ class CallMixin:
 
     def list_insert(self, lst, i, v, st):
         et, kl, ke, n, arr = self.list_parts(lst, st)
-        j0 = z3.If(i.z < 0, i.z + n, i.z)
+        j0 = self.norm_idx_code(i.z, n)
         j = z3.If(j0 < 0, I(0), z3.If(j0 > n, n, j0))
         k = z3.Int(fresh_name('k'))
         na = z3.Lambda([k], z3.If(k < j, z3.Select(arr, k), z3.If(k == j, coerce(v, et).z, z3.Select(arr, k - 1))))
@@ -64,7 +71,7 @@ class CallMixin:
         et, kl, ke, n, arr = self.list_parts(lst, st)
         iz = I(-1) if i is None else i.z
         self.raise_if(st, z3.Or(n == 0, iz >= n, iz < -n), 'IndexError', 'pop')
-        j = z3.If(iz < 0, iz + n, iz)
+        j = self.norm_idx_code(iz, n)
         k = z3.Int(fresh_name('k'))
         na = z3.Lambda([k], z3.If(k < j, z3.Select(arr, k), z3.Select(arr, k + 1)))
         res = z3.Select(arr, j)
@@ -74,7 +81,7 @@ class CallMixin:
     def list_setitem(self, lst, i, v, st):
         et, kl, ke, n, arr = self.list_parts(lst, st)
         self.raise_if(st, z3.Or(i.z >= n, i.z < -n), 'IndexError', 'list assignment')
-        j = z3.If(i.z < 0, i.z + n, i.z)
+        j = self.norm_idx_code(i.z, n)
         st.seth(ke, z3.Store(st.h(ke), lst.z, z3.Store(arr, j, coerce(v, et).z)))
 
     def list_reverse(self, lst, st):
@@ -92,8 +99,8 @@ class CallMixin:
         dt = d.t
         kh, kv = self.eng.k_dhas(dt.k), self.eng.k_dval(dt.k, dt.v)
         kz = coerce(k, dt.k).z
-        has = z3.Select(st.h(kh), d.z)
-        val = z3.Select(st.h(kv), d.z)
+        has = self.rd(st, kh, d.z)
+        val = self.rd(st, kv, d.z)
         st.seth(kh, z3.Store(st.h(kh), d.z, z3.Store(has, kz, z3.BoolVal(True))))
         st.seth(kv, z3.Store(st.h(kv), d.z, z3.Store(val, kz, coerce(v, dt.v).z)))
 
@@ -101,7 +108,7 @@ class CallMixin:
         dt = d.t
         kh = self.eng.k_dhas(dt.k)
         kz = coerce(k, dt.k).z
-        has = z3.Select(st.h(kh), d.z)
+        has = self.rd(st, kh, d.z)
         self.raise_if(st, z3.Not(z3.Select(has, kz)), 'KeyError', 'del')
         st.seth(kh, z3.Store(st.h(kh), d.z, z3.Store(has, kz, z3.BoolVal(False))))
 
@@ -728,8 +735,8 @@ class CallMixin:
     def dict_method(self, d, meth, n, st):
         args = [self.ev(a, st) for a in n.args]
         dt = d.t
-        has = z3.Select(st.h(self.eng.k_dhas(dt.k)), d.z)
-        val = z3.Select(st.h(self.eng.k_dval(dt.k, dt.v)), d.z)
+        has = self.rd(st, self.eng.k_dhas(dt.k), d.z)
+        val = self.rd(st, self.eng.k_dval(dt.k, dt.v), d.z)
         if meth == 'get':
             k = coerce(args[0], dt.k)
             dflt = args[1] if len(args) > 1 else none_sv()
